@@ -452,8 +452,9 @@ type c23Check struct {
 
 func c23DrawCheck(t *rapid.T, g *sim.Gen) *c23Check {
 	if sim.U(t, "chkFromGen", 2) == 0 {
-		ic := g.IssueCheck(t)
-		return &c23Check{raw: ic.Raw, issuer: ic.Issuer, pass: ic.Pass, kind: "generator"}
+		if ic := g.IssueCheck(t); !ic.OddLock { // hostile locks are C07's subject; here the lock must verify
+			return &c23Check{raw: ic.Raw, issuer: ic.Issuer, pass: ic.Pass, kind: "generator"}
+		}
 	}
 	c := &check.Check{
 		Nonce:    c23Blob(t, "ckNonce"),
